@@ -82,6 +82,10 @@ def literal(c):
 
 
 def args_text(c):
+    return _args_text(c) + ("," if c.get("tc") else "")
+
+
+def _args_text(c):
     named = c["named"]
     f0, f1 = (fad(c), "b") if named else ("_0", "_1")
     lit = c["lit"]
